@@ -70,6 +70,7 @@ func genCfg(rng *rand.Rand, profile string) Cfg {
 		c.Providers = []string{"google", "fb"}
 	}
 	c.Preserve = []string{}
+	c.OneTime = rng.Intn(100) < 65
 	switch profile {
 	case "lock":
 		c.Mods = ensure(c.Mods, "auth", "lock")
@@ -756,6 +757,28 @@ func (g *Gen) scenarios() []intent {
 				code = Desc{K: "sessval", B: b, V: "sms_secret"}
 			}
 			return append(out, g.req(b, "POST", "SmsValidate", []KV{{"code", code}}))
+		})
+	}
+	if c.has("auth") && (c.Totp || c.Sms) {
+		// a recovery code completes a login, then the same code is presented again from another browser
+		add(boost(3, "twofactor", "onetime"), func() []SymStep {
+			u, ok := g.twofaUser()
+			if !ok {
+				return nil
+			}
+			usr := g.r.w.st.users[g.r.account(u).PID]
+			route := "SmsValidate"
+			if usr != nil && c.Totp && usr.TOTPSecretKey != "" && !(c.Sms && c.SmsFirst && usr.SMSPhoneNumber != "") {
+				route = "TotpValidate"
+			}
+			i := g.rng.Intn(2)
+			b1, b2 := g.browser(), g.browser()
+			rc := []KV{{"recovery_code", Desc{K: "rc", U: u, I: i}}}
+			out := []SymStep{g.loginStep(b1, u, Desc{K: "pw", U: u}, false), g.req(b1, "POST", route, rc)}
+			if g.rng.Intn(3) == 0 {
+				out = append(out, g.req(b1, "POST", "Logout", nil))
+			}
+			return append(out, g.loginStep(b2, u, Desc{K: "pw", U: u}, false), g.req(b2, "POST", route, rc))
 		})
 	}
 	if c.has("auth") && c.Sms {
